@@ -145,7 +145,7 @@ CHECKS = {
                   "hook events + per-evaluation content hashes from real multi-threaded runs validated by TLC (Trace_Threads = ownership/lock discipline by identity + Trace_Eval function memo)",
         text="TLC explores every interleaving of three threads each constructing its processor, doing two transforms (load scratch / run / read scratch as separate steps) and exiting, for the structure of each back-end as implemented: "
              "scratch buffers are never shared, every transform returns its own data, at most one thread is inside the FFTW planner, all threads finish; the designs 'destructor outside the planner mutex' (the pinned code, defect D5, repaired) and "
-             "'one shared processor' are rejected. On the real library 1..64 threads (oversubscribed, random yields, created and destroyed in rounds, four different histories per thread, one thread generating keys meanwhile) evaluate gates and a "
+             "'one shared processor', 'twiddle tables published once and freed by the processor that built them' (TablesAlive) and 'evaluation temporaries shared by all callers' (Deterministic) are rejected. On the real library 1..64 threads (oversubscribed, random yields, created and destroyed in rounds, four different histories per thread, one thread generating keys meanwhile; in every other run the library's first user is a helper thread that generates the key, computes the sequential reference and exits before any worker starts) evaluate gates and a "
              "1/4-message bootstrapping with one shared cloud key; hooks (guard TFHE_VERIF) report processor construction/destruction, which processor and scratch buffer each thread ran its transforms on, and the planner critical sections, ordered by a global atomic counter. "
              "TLC requires that every thread used only the processor it constructed itself (identity, not timing), that every planner call was made by the holder of the mutex, that joined threads' processors were destroyed, and that every output equals the memoised output "
              "of the same (operation, key, inputs) on any other thread, after any history, and in the sequential reference run.",
